@@ -410,13 +410,23 @@ func runSvc(c SvcCase) *pbt.Result {
 	if !bytes.Equal(o2.ToByteArray(), b) {
 		return pbt.Fail("%s: re-encoding differs", sp.Name)
 	}
+	// the same record object, written before, takes the field values of another record and is written again
+	sv2 := sp.Build(rfl.NewStream(nil, c.Seed^0x9e3779b97f4a7c15, c.Len))
+	service.ToBytes(sv, wio.NewDataOutputX()) // written immediately before the change
+	copyExported(sv, sv2, nil)
+	oa, ob := wio.NewDataOutputX(), wio.NewDataOutputX()
+	service.ToBytes(sv, oa)
+	service.ToBytes(sv2, ob)
+	if !bytes.Equal(oa.ToByteArray(), ob.ToByteArray()) {
+		return pbt.Fail("%s: a record that had been written was given other field values and written again: its bytes differ from those of a fresh record with the same field values (%d vs %d bytes)", sp.Name, len(oa.ToByteArray()), len(ob.ToByteArray()))
+	}
 	nd, tot := rfl.NonDefault(rfl.Canon(sv, nil))
 	return &pbt.Result{NT: nd*2 >= tot, Classes: []string{"type=" + sp.Name}, Key: b}
 }
 
 var specSvc = pbt.Register(pbt.Spec[SvcCase]{
 	Prop: "C08", Name: "service-record", Parallel: 8,
-	Rule:  "Was / App / Was2 service records with every field filled, written with their type tag (service.ToBytes) and read back (service.ToObject): same type, equal carried fields, exact consumption, identical re-encoding; non-trivial = at least half of the fields non-default; distinct by bytes",
+	Rule:  "Was / App / Was2 service records with every field filled, written with their type tag (service.ToBytes) and read back (service.ToObject): same type, equal carried fields, exact consumption, identical re-encoding; the written object then takes another record's field values and must write that record's bytes; non-trivial = at least half of the fields non-default; distinct by bytes",
 	Quick: 1500, Thorough: 60000,
 	Draw: func(t *rapid.T) SvcCase {
 		return SvcCase{Type: rapid.IntRange(0, 2).Draw(t, "type"), Seed: rapid.Uint64().Draw(t, "seed"), Len: rapid.SampledFrom([]int{0, 8, 80, 80}).Draw(t, "len"), Prefix: rapid.SliceOfN(rapid.Uint64(), 0, 6).Draw(t, "prefix")}
